@@ -298,7 +298,17 @@ class Check:
         self.seed = seed
         self.t0 = time.time()
         self.rng = random.Random(seed * 1000003 + zlib.crc32(pid.encode()))
-        self.build = VERIF / 'build' / pid
+        # one scratch directory per run (process), so that two runs of the same check never share files;
+        # directories left by runs whose process is gone are removed first
+        base = VERIF / 'build' / pid
+        base.mkdir(parents=True, exist_ok=True)
+        for old in base.iterdir():
+            m = re.fullmatch(r'r(\d+)', old.name)
+            if old.is_dir() and (m is None or not Path(f'/proc/{m.group(1)}').exists()):
+                shutil.rmtree(old, ignore_errors=True)
+            elif old.is_file():
+                old.unlink(missing_ok=True)
+        self.build = base / f'r{os.getpid()}'
         self.gen = self.build / 'gen'
         self.tmp = self.build / 'tmp'
         if self.build.exists():
